@@ -5,10 +5,11 @@ import Chihaya.Driver.DConfig
 import Chihaya.Driver.DApproval
 import Chihaya.Driver.DHttpParse
 import Chihaya.Driver.DUdp
+import Chihaya.Driver.DHttpWrite
 open Proto
 
 def dispatch (l : Line) : String :=
-  let hs : List (Line → Option (Except String String)) := [DBencode.handle, DVarInterval.handle', DConfig.handle, DApproval.handle, DHttpParse.handle, DUdp.handle]
+  let hs : List (Line → Option (Except String String)) := [DBencode.handle, DVarInterval.handle', DConfig.handle, DApproval.handle, DHttpParse.handle, DUdp.handle, DHttpWrite.handle]
   let r : Option (Except String String) := hs.findSome? (fun h => h l)
   match r with
   | some (Except.ok s) => s
